@@ -202,6 +202,24 @@ fn prefixes<F: Family>(p: &F::Packet, t: &mut Tape, ctx: &mut Ctx) -> CaseResult
         Ok(ok) if ok.pkt == *p && ok.total == enc.len() && run.pos == enc.len() => {}
         other => viol!("poll decoder on the encoding followed by {} returned {:?} at stream position {} (packet is {} bytes)", hex_short(&suffix, 16), other.map(|q| (q.total, fam::render(&q.pkt))), run.pos, enc.len()),
     }
+    // the same when the caller has read the fixed header itself (and perhaps the first body bytes) and starts the poll
+    // decoder from a body state it built: the packet, and nothing of what follows it
+    for prefill in [0usize, 1 + t.pick(enc.len())] {
+        if let Some((r, pos)) = fam::dec_poll_from_built_body::<F>(&ext, prefill) {
+            match r {
+                Ok(ok) if ok.pkt == *p && ok.total == enc.len() && pos == enc.len() => {}
+                other => viol!("poll decoder started from a caller-built body state (header read by the caller, {} body bytes already held) on the encoding followed by {} returned {:?} at stream position {} (packet is {} bytes)", prefill, hex_short(&suffix, 16), other.map(|q| (q.total, fam::render(&q.pkt))), pos, enc.len()),
+            }
+            // and a strict prefix is still incomplete
+            if enc.len() >= 4 {
+                let cut = enc.len() - 1 - t.pick(enc.len() / 2);
+                if let Some((r, _)) = fam::dec_poll_from_built_body::<F>(&enc[..cut], prefill) {
+                    ensure!(matches!(&r, Err(e) if F::is_eof(e)), "poll decoder started from a caller-built body state on the first {} of {} bytes returned {:?} instead of an EOF error", cut, enc.len(), r.map(|q| fam::render(&q.pkt)));
+                }
+            }
+            ctx.label("caller-built-body-state");
+        }
+    }
     ctx.label("suffix-ignored");
     if interesting {
         ctx.nontrivial(fnv(&enc));
